@@ -949,6 +949,19 @@ func genLoginCases(g genCtx) []loginCase {
 				out = append(out, lc)
 			}
 		}
+		// values with multi-byte characters: the limits count bytes
+		for _, name := range loginFieldNames {
+			for _, v := range []string{"h\u00f4te", "\u00e4\u00f6\u00fc", strings.Repeat("\u00e9", 15), "x" + strings.Repeat("\u00e9", 15), strings.Repeat("\u00e9", 16), strings.Repeat("\u6771", 10), strings.Repeat("\u6771", 11), strings.Repeat("\U0001f600", 7), strings.Repeat("\U0001f600", 8)} {
+				lc := nominalLogin(enc)
+				*lc.field(name) = v
+				lab := "multi-byte,len=0..30"
+				if len(v) > 30 {
+					lab = "multi-byte,len>30"
+				}
+				lc.Label = encLab + "," + name + "," + lab
+				out = append(out, lc)
+			}
+		}
 		// all fields at the same length
 		for _, l := range []int{0, 1, 29, 30, 31} {
 			lc := nominalLogin(enc)
